@@ -117,6 +117,7 @@ type State struct {
 	trace   []string
 	panicked bool
 	pcSet   map[string]bool
+	heads   map[*Loop]*State // per open loop: the state at the head of the current iteration
 }
 
 func (s *State) clone() *State {
@@ -148,6 +149,12 @@ func (s *State) clone() *State {
 		n.freshID[k] = v
 	}
 	n.trace = append([]string{}, s.trace...)
+	if s.heads != nil {
+		n.heads = make(map[*Loop]*State, len(s.heads))
+		for k, v := range s.heads {
+			n.heads[k] = v
+		}
+	}
 	return n
 }
 
